@@ -32,7 +32,11 @@ Qed.
 
 (* ---- fail closed: anything but the expected acknowledgement ends the exchange with an error ---- *)
 Definition expected (r : reply) (e : expect) : bool :=
-  match r, e with RBindAck _ _ _, EBindAck | RAlterResp _ _ _, EAlterResp => true | _, _ => false end.
+  reply_decodes r && match r, e with RBindAck _ _ _, EBindAck | RAlterResp _ _ _, EAlterResp => true | _, _ => false end.
+
+Ltac exp_true :=
+  solve [ unfold expected; cbn [reply_decodes andb];
+          match goal with H : forallb result_code_ok _ = true |- _ => rewrite H end; reflexivity ].
 
 Lemma send_pdu_fail_closed p e s :
   match server s with
@@ -43,8 +47,9 @@ Proof.
   unfold send_pdu. cbn [snoc_trace server trace]. destruct (server s) as [|r rest] eqn:Es.
   - cbn. auto.
   - split.
-    + intros H. destruct r, e; cbn in *; try discriminate; reflexivity.
-    + destruct r, e; reflexivity.
+    + intros H. unfold expected in H. destruct (reply_decodes r); cbn [negb andb] in *; [|reflexivity].
+      destruct r, e; cbn in *; try discriminate; reflexivity.
+    + destruct (negb (reply_decodes r)); [reflexivity|]. destruct r, e; reflexivity.
 Qed.
 
 (* the guards regenerated from the source mean what the handshake description says *)
@@ -106,10 +111,10 @@ Inductive Run (fctx : list Z) : list leg -> bool -> option bytes -> st -> res un
 | RunBad l ls tk s rp rest : leg_token l <> [] -> server s = rp :: rest -> expected rp EAlterResp = false ->
     Run fctx (l :: ls) false tk s (Raise ValueError) (pop_server (step_sent fctx l tk s))
 | RunIdx l ls tk s rs fl tk' rest e : leg_token l <> [] -> server s = RAlterResp rs fl tk' :: rest ->
-    accepted_contexts fctx rs 0 = Raise e ->
+    forallb result_code_ok rs = true -> accepted_contexts fctx rs 0 = Raise e ->
     Run fctx (l :: ls) false tk s (Raise e) (pop_server (step_sent fctx l tk s))
 | RunNext l ls tk s rs fl tk' rest acc r s' : leg_token l <> [] -> server s = RAlterResp rs fl tk' :: rest ->
-    accepted_contexts fctx rs 0 = Ok acc ->
+    forallb result_code_ok rs = true -> accepted_contexts fctx rs 0 = Ok acc ->
     Run fctx ls (leg_complete l) tk' (acked fl (pop_server (step_sent fctx l tk s))) r s' ->
     Run fctx (l :: ls) false tk s r s'.
 
@@ -142,14 +147,17 @@ Proof.
       change (server (step_sent fctx l tk s)) with (server s).
       destruct (server s) as [|rp rest] eqn:Es; intros H.
       * inversion H; subst. constructor; assumption.
-      * destruct rp as [rs fl tk'|rs fl tk'| | |];
-          try (inversion H; subst; eapply RunBad; [assumption|exact Es|reflexivity]).
+      * destruct (reply_decodes rp) eqn:Ed; cbn [negb] in H.
+        2:{ inversion H; subst. eapply RunBad; [assumption|exact Es|]. unfold expected. rewrite Ed. reflexivity. }
+        destruct rp as [rs fl tk'|rs fl tk'| | |];
+          try (inversion H; subst; eapply RunBad; [assumption|exact Es|unfold expected; rewrite Ed; reflexivity]).
+        cbn [reply_decodes] in Ed.
         unfold process_bind_ack in H. destruct (accepted_contexts fctx rs 0) as [acc|e] eqn:Ea.
         -- rewrite clears_sign_eq in H.
            change (if Z.land fl 4 =? 0 then set_sign (pop_server (step_sent fctx l tk s)) false else pop_server (step_sent fctx l tk s))
              with (acked fl (pop_server (step_sent fctx l tk s))) in H.
-           eapply RunNext; [assumption|exact Es|exact Ea|]. apply IH. exact H.
-        -- inversion H; subst. eapply RunIdx; [assumption|exact Es|exact Ea].
+           eapply RunNext; [assumption|exact Es|exact Ed|exact Ea|]. apply IH. exact H.
+        -- inversion H; subst. eapply RunIdx; [assumption|exact Es|exact Ed|exact Ea].
 Qed.
 
 Lemma step_sent_trace fctx l tk s :
@@ -200,8 +208,8 @@ Lemma Run_out fctx legs c tk s r s' : Run fctx legs c tk s r s' ->
     (forall j p, nth_error alters j = Some p ->
        sent_flags p = if sign s && forallb has_flag (firstn j processed) then 4 else 0).
 Proof.
-  induction 1 as [legs tk s|tk s|l ls tk s Ht|l ls tk s Ht Es|l ls tk s rp rest Ht Es Ex|l ls tk s rs fl tk' rest e Ht Es Ea
-                 |l ls tk s rs fl tk' rest acc r s' Ht Es Ea HR IH].
+  induction 1 as [legs tk s|tk s|l ls tk s Ht|l ls tk s Ht Es|l ls tk s rp rest Ht Es Ex|l ls tk s rs fl tk' rest e Ht Es Hd Ea
+                 |l ls tk s rs fl tk' rest acc r s' Ht Es Hd Ea HR IH].
   1-3: exists [], 0%nat, [], []; autorewrite with hs; cbn [firstn map length forallb app];
        rewrite ?app_nil_r, ?andb_true_r; repeat split; out_fin.
   - exists [SAlter (if sign s then 4 else 0) (leg_token l) fctx], 1%nat, [], [].
@@ -220,9 +228,9 @@ Proof.
     split. { rewrite Htr, <- app_assoc. reflexivity. }
     split; [lia|]. split; [constructor; [exact I|assumption]|].
     split; [f_equal; assumption|]. split; [constructor; assumption|].
-    split; [constructor; [reflexivity|assumption]|].
+    split; [constructor; [first [reflexivity|exp_true]|assumption]|].
     split; [rewrite Es, Hsrv; reflexivity|]. split; [assumption|].
-    split; [constructor; [reflexivity|assumption]|]. split; [lia|].
+    split; [constructor; [first [reflexivity|exp_true]|assumption]|]. split; [lia|].
     split; [intros Hv; f_equal; auto|].
     split; [rewrite Hsg, andb_assoc; reflexivity|].
     intros [|j] p Hj; cbn [nth_error firstn forallb] in *.
@@ -233,12 +241,20 @@ Qed.
 Ltac nth_nil := match goal with H : nth_error [] ?k = Some _ |- _ => destruct k; discriminate H end.
 Ltac nth_one := match goal with H : nth_error [_] ?k = Some _ |- _ =>
   destruct k as [|k]; [cbn [nth_error] in H; inversion H; subst; clear H | destruct k; discriminate H] end.
+Ltac exp_false :=
+  match goal with
+  | Hx : expected _ _ = false, Hd : forallb result_code_ok _ = true |- _ =>
+    unfold expected in Hx; cbn [reply_decodes andb] in Hx; rewrite Hd in Hx; discriminate Hx
+  end.
 Ltac in_fin :=
   first [ lia | solve [eauto] | nth_nil
+        | solve [let k := fresh "k" in let rp := fresh "rp" in let Hk := fresh "Hk" in let Hx := fresh "Hx" in
+                 intros k rp Hk Hx; nth_one; exp_false]
         | solve [firstorder congruence]
         | solve [let i := fresh "i" in let lg := fresh "lg" in let Hl := fresh "Hl" in let Hl' := fresh "Hl" in
                  intros [|i] lg Hl Hl'; [cbn [nth_error] in Hl; inversion Hl; subst; contradiction | lia]]
         | solve [nth_one; first [contradiction | discriminate | reflexivity | lia | auto]]
+        | solve [nth_one; exp_false]
         | idtac ].
 
 (* ---- what comes in: replies consumed, what step() was fed, when the loop stops, how errors end it ---- *)
@@ -257,8 +273,8 @@ Lemma Run_in fctx legs c tk s r s' : Run fctx legs c tk s r s' ->
     ((1 <= m)%nat -> c = false) /\
     (forall i lg, nth_error legs i = Some lg -> leg_token lg = [] -> (d <= i)%nat).
 Proof.
-  induction 1 as [legs tk s|tk s|l ls tk s Ht|l ls tk s Ht Es|l ls tk s rp rest Ht Es Ex|l ls tk s rs fl tk' rest e Ht Es Ea
-                 |l ls tk s rs fl tk' rest acc r s' Ht Es Ea HR IH].
+  induction 1 as [legs tk s|tk s|l ls tk s Ht|l ls tk s Ht Es|l ls tk s rp rest Ht Es Ex|l ls tk s rs fl tk' rest e Ht Es Hd Ea
+                 |l ls tk s rs fl tk' rest acc r s' Ht Es Hd Ea HR IH].
   - exists [], 0%nat, 0%nat. autorewrite with hs. cbn [firstn app length]. rewrite app_nil_r.
     repeat split; in_fin.
   - exists [], 0%nat, 0%nat. autorewrite with hs. cbn [firstn app length]. rewrite app_nil_r.
@@ -289,7 +305,7 @@ Proof.
         + f_equal. apply Hiff. split; [lia|]. exists lg. cbn [Nat.sub]. rewrite Nat.sub_0_r. auto. }
     split. { destruct Hcd as [E|(E & E1 & E2)]; [left; lia|right; auto]. }
     split. { intros [|k] rp Hk Hx; cbn [nth_error] in Hk.
-             - inversion Hk; subst. discriminate.
+             - inversion Hk; subst. first [discriminate | exp_false].
              - destruct (Hbad _ _ Hk Hx) as (E1 & E2 & E3). auto. }
     split. { intros [|i] lg Hi Hl; cbn [nth_error] in Hl.
              - inversion Hl; subst. apply Hc. lia.
@@ -308,9 +324,9 @@ Inductive BindRun (l : leg) (ls : list leg) (srv : list reply) (ctxs : list Z) :
 | BREOF : srv = [] -> BindRun l ls srv ctxs (Raise EOFError) (bind_st l srv ctxs)
 | BRBad rp rest : srv = rp :: rest -> expected rp EBindAck = false ->
     BindRun l ls srv ctxs (Raise ValueError) (pop_server (bind_st l srv ctxs))
-| BRIdx rs fl tk rest e : srv = RBindAck rs fl tk :: rest -> accepted_contexts ctxs rs 0 = Raise e ->
+| BRIdx rs fl tk rest e : srv = RBindAck rs fl tk :: rest -> forallb result_code_ok rs = true -> accepted_contexts ctxs rs 0 = Raise e ->
     BindRun l ls srv ctxs (Raise e) (pop_server (bind_st l srv ctxs))
-| BRLoop rs fl tk rest acc ru s : srv = RBindAck rs fl tk :: rest -> accepted_contexts ctxs rs 0 = Ok acc ->
+| BRLoop rs fl tk rest acc ru s : srv = RBindAck rs fl tk :: rest -> forallb result_code_ok rs = true -> accepted_contexts ctxs rs 0 = Ok acc ->
     Run acc ls (leg_complete l) tk (acked fl (pop_server (bind_st l srv ctxs))) ru s ->
     BindRun l ls srv ctxs (match ru with Ok _ => Ok rs | Raise e => Raise e end) s.
 
@@ -324,8 +340,11 @@ Proof.
   change (server (bind_st l srv ctxs)) with srv.
   destruct srv as [|rp rest] eqn:Es; intros H.
   - inversion H; subst. constructor. reflexivity.
-  - destruct rp as [rs fl tk|rs fl tk| | |];
-      try (inversion H; subst; eapply BRBad; reflexivity).
+  - destruct (reply_decodes rp) eqn:Ed; cbn [negb] in H.
+    2:{ inversion H; subst. eapply BRBad; [reflexivity|]. unfold expected. rewrite Ed. reflexivity. }
+    destruct rp as [rs fl tk|rs fl tk| | |];
+      try (inversion H; subst; eapply BRBad; [reflexivity|unfold expected; rewrite Ed; reflexivity]).
+    cbn [reply_decodes] in Ed.
     unfold process_bind_ack in H. destruct (accepted_contexts ctxs rs 0) as [acc|e] eqn:Ea.
     + rewrite clears_sign_eq in H.
       change (if Z.land fl 4 =? 0 then set_sign (pop_server (bind_st l (RBindAck rs fl tk :: rest) ctxs)) false
@@ -336,8 +355,8 @@ Proof.
       apply alter_loop_Run in El.
       assert (E : r = match ru with Ok _ => Ok rs | Raise e => Raise e end /\ s = s5).
       { destruct ru; inversion H; subst; auto. }
-      destruct E as [-> ->]. eapply BRLoop; [reflexivity|exact Ea|exact El].
-    + inversion H; subst. eapply BRIdx; [reflexivity|exact Ea].
+      destruct E as [-> ->]. eapply BRLoop; [reflexivity|exact Ed|exact Ea|exact El].
+    + inversion H; subst. eapply BRIdx; [reflexivity|exact Ed|exact Ea].
 Qed.
 
 Lemma bind_st_loop_trace l srv ctxs fl : trace (acked fl (pop_server (bind_st l srv ctxs))) = [SBind 4 (Some (leg_token l)) ctxs].
@@ -361,7 +380,7 @@ Theorem tokens_out l ls srv ctxs r s : bind_run true (l :: ls) srv ctxs = (r, s)
        Forall (fun p => sent_ctxs p = acc) alters).
 Proof.
   intros H. apply bind_run_BindRun in H.
-  destruct H as [Es|rp rest Es Ex|rs fl tk rest e Es Ea|rs fl tk rest acc ru s Es Ea HR].
+  destruct H as [Es|rp rest Es Ex|rs fl tk rest e Es Hd Ea|rs fl tk rest acc ru s Es Hd Ea HR].
   1-3: exists [], 0%nat; cbn [firstn map]; repeat split; auto; lia.
   apply Run_out in HR as (alters & n & processed & extra & Htr & Hn & Hal & Htok & Hne & Hcx & _).
   rewrite bind_st_loop_trace in Htr. exists alters, n. repeat split; auto.
@@ -384,7 +403,7 @@ Theorem tokens_in l ls srv ctxs r s : bind_run true (l :: ls) srv ctxs = (r, s) 
      (S (length consumed) = length (trace s) /\ r = Raise EOFError /\ server s = [])).
 Proof.
   intros H. apply bind_run_BindRun in H.
-  destruct H as [Es|rp rest Es Ex|rs fl tk rest e Es Ea|rs fl tk rest acc ru s Es Ea HR].
+  destruct H as [Es|rp rest Es Ex|rs fl tk rest e Es Hd Ea|rs fl tk rest acc ru s Es Hd Ea HR].
   - exists []. subst srv. cbn. repeat split; auto; try lia; try (intros (? & _); lia).
   - exists [rp]. subst srv. cbn. repeat split; auto; try lia; try (intros (? & _); lia).
   - exists [RBindAck rs fl tk]. subst srv. cbn. repeat split; auto; try lia; try (intros (? & _); lia).
@@ -418,7 +437,7 @@ Proof.
   assert (G : (length (steps s) <= length (l :: ls))%nat /\
     (forall i lg, (S i < length (steps s))%nat -> nth_error (l :: ls) i = Some lg -> leg_complete lg = false) /\
     (forall i lg, (1 <= i)%nat -> nth_error (l :: ls) i = Some lg -> leg_token lg = [] -> (length (trace s) <= i)%nat)).
-  { destruct H as [Es|rp rest Es Ex|rs fl tk rest e Es Ea|rs fl tk rest acc ru s Es Ea HR].
+  { destruct H as [Es|rp rest Es Ex|rs fl tk rest e Es Hd Ea|rs fl tk rest acc ru s Es Hd Ea HR].
     1-3: cbn; repeat split; intros; lia.
     apply Run_in in HR as (consumed & m & d & Hsrv & Hst & Htr & Hml & Hmc & Hmd & Hiff & Hcd & Hbad & Hinc & Hc & Hemp).
     rewrite bind_st_loop_steps in Hst. rewrite bind_st_loop_trace in Htr. cbn [length] in *.
@@ -449,7 +468,7 @@ Theorem header_sign l ls srv ctxs r s : bind_run true (l :: ls) srv ctxs = (r, s
        sent_flags p = if forallb has_flag (firstn j processed) then 4 else 0).
 Proof.
   intros H. apply bind_run_BindRun in H.
-  destruct H as [Es|rp rest Es Ex|rs fl tk rest e Es Ea|rs fl tk rest acc ru s Es Ea HR].
+  destruct H as [Es|rp rest Es Ex|rs fl tk rest e Es Hd Ea|rs fl tk rest acc ru s Es Hd Ea HR].
   - exists [], []. subst srv. cbn. repeat split; eauto; try (intros; nth_nil); try (intros [? ?]; discriminate); try (intros; nth_one; reflexivity).
   - exists [], [rp]. subst srv. cbn. repeat split; eauto; try (intros; nth_nil); try (intros [? ?]; discriminate); try (intros; nth_one; reflexivity).
   - exists [], [RBindAck rs fl tk]. subst srv. cbn. repeat split; eauto; try (intros; nth_nil); try (intros [? ?]; discriminate); try (intros; nth_one; reflexivity).
@@ -460,7 +479,7 @@ Proof.
     split; [rewrite Hsrv; reflexivity|].
     split. { destruct Hex as [->|(rp & e & -> & ->)]; [left; reflexivity|right; eauto]. }
     split. { intros [|k] a Hk; cbn [nth_error] in Hk.
-             - inversion Hk; subst. reflexivity.
+             - inversion Hk; subst. first [reflexivity | exp_true].
              - cbn [expect_at]. rewrite Forall_forall in Hpr. apply Hpr. eapply nth_error_In; eassumption. }
     split; [lia|].
     split. { intros [v Hv]. f_equal. apply Hok. destruct ru as [[]|]; [eauto|discriminate]. }
@@ -480,21 +499,21 @@ Theorem fail_closed l ls srv ctxs r s consumed :
      r = Raise EOFError /\ server s = [] /\ length (trace s) = S (length consumed)).
 Proof.
   intros H Hc. apply bind_run_BindRun in H.
-  destruct H as [Es|rp rest Es Ex|rs fl tk rest e Es Ea|rs fl tk rest acc ru s Es Ea HR].
+  destruct H as [Es|rp rest Es Ex|rs fl tk rest e Es Hd Ea|rs fl tk rest acc ru s Es Hd Ea HR].
   - subst srv. cbn in Hc. destruct consumed; [|discriminate]. cbn. repeat split; auto; try nth_nil.
   - cbn [server pop_server bind_st] in Hc. subst srv. cbn [tl] in Hc.
     change (rp :: rest) with ([rp] ++ rest) in Hc. apply app_inv_tail in Hc. subst consumed. cbn.
     repeat split; auto; try lia; nth_one; reflexivity.
   - cbn [server pop_server bind_st] in Hc. subst srv. cbn [tl] in Hc.
     change (RBindAck rs fl tk :: rest) with ([RBindAck rs fl tk] ++ rest) in Hc. apply app_inv_tail in Hc. subst consumed. cbn.
-    repeat split; auto; try lia; nth_one; try reflexivity; discriminate.
+    repeat split; auto; try lia; nth_one; try reflexivity; first [discriminate | exp_false].
   - apply Run_in in HR as (consumed' & m & d & Hsrv & Hst & Htr & Hml & Hmc & Hmd & Hiff & Hcd & Hbad & _).
     rewrite bind_st_loop_server in Hsrv. rewrite bind_st_loop_trace in Htr. subst srv. cbn [tl length] in *.
     rewrite Hsrv in Hc. change (RBindAck rs fl tk :: consumed' ++ server s) with ((RBindAck rs fl tk :: consumed') ++ server s) in Hc.
     apply app_inv_tail in Hc. subst consumed. rewrite Htr. cbn [length].
     split; [lia|]. split.
     + intros [|k] rp Hk Hx; cbn [nth_error expect_at] in *.
-      * inversion Hk; subst. discriminate.
+      * inversion Hk; subst. first [discriminate | exp_false].
       * destruct (Hbad _ _ Hk Hx) as (-> & E2 & E3). auto with arith.
     + intros Hlt. destruct Hcd as [E|(E & -> & E2)]; [lia|]. auto with arith.
 Qed.
@@ -504,13 +523,14 @@ Theorem anonymous legs srv ctxs r s : bind_run false legs srv ctxs = (r, s) ->
   trace s = [SBind 0 None ctxs] /\ steps s = [] /\ sign s = false /\
   match srv with
   | [] => r = Raise EOFError /\ server s = []
-  | RBindAck rs _ _ :: rest => r = Ok rs /\ server s = rest
+  | RBindAck rs _ _ :: rest => r = (if forallb result_code_ok rs then Ok rs else Raise ValueError) /\ server s = rest
   | _ :: rest => r = Raise ValueError /\ server s = rest
   end.
 Proof.
   unfold bind_run. cbn [negb]. unfold send_pdu. cbn [init_st snoc_trace server trace steps sign pop_server app tl].
   change c_PFC_NONE with 0.
-  destruct srv as [|[rs fl tk|rs fl tk| | |] rest]; intros H; inversion H; subst; cbn; auto.
+  destruct srv as [|[rs fl tk|rs fl tk| | |] rest]; cbn [reply_decodes negb];
+    try (destruct (forallb result_code_ok rs)); cbn [negb]; intros H; inversion H; subst; cbn; auto.
 Qed.
 
 (* the result of a successful bind is the bind_ack's result vector; errors are of four kinds only *)
@@ -518,7 +538,7 @@ Theorem result_is_bind_ack l ls srv ctxs r s : bind_run true (l :: ls) srv ctxs 
   forall v, r = Ok v -> exists fl tk rest, srv = RBindAck v fl tk :: rest.
 Proof.
   intros H v Hv. apply bind_run_BindRun in H.
-  destruct H as [Es|rp rest Es Ex|rs fl tk rest e Es Ea|rs fl tk rest acc ru s Es Ea HR]; try discriminate.
+  destruct H as [Es|rp rest Es Ex|rs fl tk rest e Es Hd Ea|rs fl tk rest acc ru s Es Hd Ea HR]; try discriminate.
   destruct ru; [|discriminate]. inversion Hv; subst. eauto.
 Qed.
 
@@ -550,15 +570,15 @@ Lemma Run_err fctx legs c tk s r s' : Run fctx legs c tk s r s' -> forall e, r =
         accepted_contexts fctx (reply_results a) 0 = Raise IndexError) \/
      (e = KeyError /\ c = false /\ Forall (fun lg => leg_complete lg = false /\ leg_token lg <> []) legs)).
 Proof.
-  induction 1 as [legs tk s|tk s|l ls tk s Ht|l ls tk s Ht Es|l ls tk s rp rest Ht Es Ex|l ls tk s rs fl tk' rest e0 Ht Es Ea
-                 |l ls tk s rs fl tk' rest acc r s' Ht Es Ea HR IH]; intros e He; try discriminate.
+  induction 1 as [legs tk s|tk s|l ls tk s Ht|l ls tk s Ht Es|l ls tk s rp rest Ht Es Ex|l ls tk s rs fl tk' rest e0 Ht Es Hd Ea
+                 |l ls tk s rs fl tk' rest acc r s' Ht Es Hd Ea HR IH]; intros e He; try discriminate.
   - inversion He; subst. exists []. split; [reflexivity|]. right. right. right. auto.
   - inversion He; subst. exists []. autorewrite with hs. split; [reflexivity|]. left. auto.
   - inversion He; subst. exists [rp]. autorewrite with hs. rewrite Es. split; [reflexivity|]. right. left.
     split; [reflexivity|]. exists [], rp. auto.
   - inversion He; subst. pose proof (accepted_contexts_err _ _ _ _ Ea) as ->.
     exists [RAlterResp rs fl tk']. autorewrite with hs. rewrite Es. split; [reflexivity|]. right. right. left.
-    split; [reflexivity|]. exists [], (RAlterResp rs fl tk'). auto.
+    split; [reflexivity|]. exists [], (RAlterResp rs fl tk'). split; [reflexivity|split; [exp_true|auto]].
   - destruct (IH e He) as (consumed & Hsrv & Hcase). autorewrite with hs in Hsrv. rewrite Es in Hsrv. cbn [tl] in Hsrv.
     exists (RAlterResp rs fl tk' :: consumed). split; [rewrite Es, Hsrv; reflexivity|].
     destruct Hcase as [H1|[(H1 & c0 & rp & -> & H2)|[(H1 & c0 & a & -> & H2 & H3)|(H1 & H2 & H3)]]].
@@ -577,12 +597,12 @@ Theorem error_causes l ls srv ctxs e s : bind_run true (l :: ls) srv ctxs = (Rai
      (e = KeyError /\ Forall (fun lg => leg_complete lg = false) (l :: ls) /\ Forall (fun lg => leg_token lg <> []) ls)).
 Proof.
   intros H. apply bind_run_BindRun in H. remember (Raise e) as r eqn:Hr.
-  destruct H as [Es|rp rest Es Ex|rs fl tk rest e0 Es Ea|rs fl tk rest acc ru s Es Ea HR].
+  destruct H as [Es|rp rest Es Ex|rs fl tk rest e0 Es Hd Ea|rs fl tk rest acc ru s Es Hd Ea HR].
   - inversion Hr; subst. exists []. split; [reflexivity|]. left. auto.
   - inversion Hr; subst. exists [rp]. split; [reflexivity|]. right. left. split; [reflexivity|]. exists [], rp. auto.
   - inversion Hr; subst. pose proof (accepted_contexts_err _ _ _ _ Ea) as ->.
     exists [RBindAck rs fl tk]. split; [reflexivity|]. right. right. left. split; [reflexivity|].
-    exists [], (RBindAck rs fl tk), ctxs. auto.
+    exists [], (RBindAck rs fl tk), ctxs. split; [reflexivity|split; [exp_true|auto]].
   - destruct ru as [u|e1]; [discriminate|]. inversion Hr; subst e1.
     destruct (Run_err _ _ _ _ _ _ _ HR e eq_refl) as (consumed & Hsrv & Hcase).
     rewrite bind_st_loop_server in Hsrv. subst srv. cbn [tl] in Hsrv.
